@@ -141,9 +141,9 @@ def oracle_verifies(ctx, kt, f):
     def secp():
         v = pairs.get(b"secp256k1")
         pk = raw_str(v) if v is not None else None
-        if pk is None or ctx.oracle.q("secp_pk k " + hx(pk)) == "err":
-            return None
         be = "l" if kt == "libsecp" else "k"
+        if pk is None or ctx.oracle.q("secp_pk %s %s" % (be, hx(pk))) == "err":
+            return None
         return ctx.oracle.q("ecdsa %s %s %s %s" % (be, hx(pk), hx(ctx.oracle.keccak(msg)), hx(sig))) == "1" and len(sig) == 64
 
     def ed():
@@ -209,6 +209,22 @@ def decode_inputs(ctx, kt, n_valid, with_tampers, with_struct, n_unstructured, n
         for r in recs[:with_struct]:
             for lab, b in gens.structural_mutants(rng, o, r):
                 inputs.append(b); labels.append(lab)
+            for lab, b in gens.wire_malformed_signed_canonical(rng, o, r):
+                inputs.append(b); labels.append(lab)
+        k0 = recs[0]["key"]
+        base = {b"id": rlp_str(b"v4"), k0.entry: rlp_str(k0.pub), b"ip": rlp_str(bytes([10, 0, 0, 1]))}
+        for lab, b in gens.honest_with_duplicates(rng, o, k0, 5, base) + gens.ill_typed_after_neighbour(rng, o, k0, 5, base):
+            inputs.append(b); labels.append(lab)
+        for lab, b in gens.huge_records(rng, o, k0, (65536 + 250, 65536 + 300) if ctx.quick else (65536 + 250, 65536 + 300, 65536, 65536 + 301, 2 * 65536 + 100, 70000)):
+            inputs.append(b); labels.append(lab)
+        if kt == "comb":
+            # a record of one scheme carrying a stray entry under the other scheme's key: a non-key, an invalid key, a valid key
+            ks = gens.secrets(rng, o, "comb", 6)
+            for sk in [k for k in ks if k.scheme == "k"][:1] + [k for k in ks if k.scheme == "ed"][:1]:
+                other_entry = b"ed25519" if sk.scheme == "k" else b"secp256k1"
+                for stray in (b"", b"xyz", gens.rbytes(rng, 33 if other_entry == b"secp256k1" else 32), bytes([2]) + b"\xff" * 32):
+                    pairs = {b"id": rlp_str(b"v4"), sk.entry: rlp_str(sk.pub), other_entry: rlp_str(stray)}
+                    inputs.append(record_bytes(o, sk, 3, sorted(pairs.items()))[0]); labels.append("stray_entry_of_other_scheme")
     for b in gens.unstructured(rng, n_unstructured):
         inputs.append(b); labels.append("unstructured")
     if kt in ("ed", "comb", "k256"):
@@ -222,7 +238,7 @@ def cross_decode(ctx, kt, inputs, texts=()):
     if kt != "toy":
         return
     n = ctx.scale(24, 250)
-    ins = list(inputs)
+    ins = [b for b in inputs if len(b) <= 2000]   # (a 64 KiB list literal overflows coqc's parser stack)
     ctx.rng.shuffle(ins)
     txt = list(texts)[:ctx.scale(6, 60)]
     k, dt = coqcross.cross_check(ins[:n], txt, ctx.pid.lower())
@@ -299,6 +315,8 @@ def check_C13(ctx):
             suf = (len(case[1].split()[1]) - len(case[0].split()[1])) // 2 if case[0].split()[1] != "-" else len(unhx(case[1].split()[1]))
             if cls(h0) != cls(h1):
                 out.append((1, "outcome changes with the suffix: alone=%s with %d-byte suffix=%s" % (first(h0), suf, first(h1))))
+            elif first(h0) == "err" and f0.get("e") != f1.get("e"):
+                out.append((1, "the error reported for an invalid item changes with what follows it: alone=%s, followed by %d bytes=%s" % (f0.get("e"), suf, f1.get("e"))))
             elif first(h0) == "ok":
                 if int(f1["rest"]) != int(f0["rest"]) + suf:
                     out.append((1, "buffer not advanced by exactly the item length"))
@@ -315,6 +333,18 @@ def check_C13(ctx):
             n = rng.choice([0, 1, 1, 2, 8, 55, 181, 182, 250, 300, 301, 1000]) if rng.random() < 0.7 else rng.randrange(0, 1001)
             suffix = gens.rbytes(rng, n) if rng.random() < 0.7 else (recs[0]["bytes"] * 4)[:n]
             cases.append(["decode " + hx(b), "decode " + hx(b + suffix)]); labs.append(lab + "+suffix")
+        # complete but invalid items (last element cut short / missing value) followed by bytes that would complete them
+        for r in recs[:ctx.scale(4, 30)]:
+            body = rlp_uint(r["seq"]) + b"".join(rlp_str(k) + v for k, v in r["pairs"])
+            for extra in (rlp_str(b"tcp"), rlp_str(b"zzz") + b"\x83ab", rlp_str(b"zzz") + b"\xc2\x01", rlp_str(b"zzz") + b"\xb8"):
+                bad = rlp_list(rlp_str(r["sig"]) + body + extra)
+                for sfx in (b"\x00", b"\x05", rng.choice(recs)["bytes"], b"\x80", gens.rbytes(rng, 7)):
+                    cases.append(["decode " + hx(bad), "decode " + hx(bad + sfx)]); labs.append("truncated_last_element+suffix")
+        # records of exactly 300 bytes followed by more than 64 KiB
+        for r in recs:
+            if len(r["bytes"]) == 300 and sum(1 for l in labs if l == "300_bytes+huge_suffix") < ctx.scale(2, 8):
+                for n in (65236, 65536, 70000):
+                    cases.append(["decode " + hx(r["bytes"]), "decode " + hx(r["bytes"] + (recs[0]["bytes"] * (n // len(recs[0]["bytes"]) + 1))[:n])]); labs.append("300_bytes+huge_suffix")
         # streams and lists of 1..8 records
         for _ in range(ctx.scale(12, 150)):
             k = rng.randrange(1, 9)
@@ -775,6 +805,10 @@ def port_cases(ctx, kt, ports):
             cases.append(["key a " + a.spec, "build a 0 1 tcp4/%d udp6/%d tcp6/%d udp4/%d" % (p, (p * 7) % 65536, 65535 - p, p ^ 1)])
             pairs = {b"id": rlp_str(b"v4"), a.entry: rlp_str(a.pub), rng.choice([b"tcp", b"udp", b"tcp6", b"udp6"]): rlp_uint(p)}
             cases.append(["decode " + record_bytes(o, a, 1, sorted(pairs.items()))[0].hex()])
+    # IPv6 socket addresses with a scope id / flow info (not stored in a record): stored and read back like plain ones
+    for ext in ("%3", "%0^7", "%4294967295", "%1^1048575", ""):
+        a6 = gens.raddr(rng, 16).hex()
+        cases.append(["key a " + a.spec, "build a 0 1", "op set_udp_socket a 0 %s%s 30303" % (a6, ext), "op set_tcp_socket a 0 %s%s 30304" % (a6, ext)])
     # presence combinations of the six address/port keys
     for mask in range(64):
         bc = []
@@ -810,6 +844,9 @@ def check_history_property(ctx):
             cases += cross_scheme_cases(ctx, kt)
         if pid in ("C05", "C08", "C14", "C09"):
             cases += builder_reuse_cases(ctx, kt)
+        if pid in ("C05", "C09"):
+            recs_d, inputs_d, labels_d = decode_inputs(ctx, kt, ctx.scale(4, 40), 0, ctx.scale(3, 30), ctx.scale(5, 100), 0)
+            cases += [["decode " + hx(b)] for b in inputs_d]
         if pid == "C10":
             for r in gens.valid_records(ctx.rng, ctx.oracle, kt, ctx.scale(6, 60)):
                 cases.append(["decode " + hx(r["bytes"])])
